@@ -89,12 +89,24 @@ def deleteData (s : St) (p : Loc) : Option St :=
     | none => none
   | _ => none
 
-/-- `p = (Data*)new char[total]; p->str = (char*)((byte*)p + sizeof(Data));`: a new block with `total - sizeof(Data)`
+/-- `p = (Data*)new char[total]` (the translator insists on a following `p->str = (char*)((byte*)p + sizeof(Data))`): a new block with `total - sizeof(Data)`
     uninitialised chars at the address `Loc.blk s.next`; its header fields read as 0 until they are stored -/
 def newData (s : St) (total : Nat) : Option St :=
   if sizeofData ≤ total then
     some { s with heap := upd s.heap s.next (some ⟨fresh (total - sizeofData), 0, 0, 0⟩), next := s.next + 1 }
   else none
+
+/-- `(char*)((byte*)p + sizeof(Data))`: the chars behind the header of a heap block -/
+def charsOf (s : St) : Loc → Option CPtr
+  | .blk b => (s.heap b).map (fun _ => ⟨.blk b, 0⟩)
+  | _ => none
+
+/-- `p->str = q`: the text of a heap block is the chars behind its header (the model's blocks have no other `str`); storing
+    anything else is outside the model: a fault -/
+def setStr (s : St) (p : Loc) (q : CPtr) : Option St :=
+  match p, q.base with
+  | .blk b, .blk c => if c = b ∧ q.off = 0 then some s else none
+  | _, _ => none
 
 /-! ### chars -/
 
